@@ -210,6 +210,7 @@ func cmdCheck(args []string) int {
 		}
 	}
 	discharge(run.results, dischargeOpts{timeoutS: timeout, workers: 12})
+	run.adaptLoopContracts(eng, gen, timeout)
 	if tier == "thorough" {
 		// second, independent discharge of every obligation with the other
 		// solvers / a different seed; disagreement is reported as fragile
